@@ -27,13 +27,25 @@ CHECKS = {
         technique="TLA+ model checking (TLC) + trace validation of decoder/parser/Request runs under limits",
         design_ref="6/C10",
     ),
+    "C02": dict(
+        category="model_checking",
+        text=("TLC checks the event-level MultipartEncoder model composed with the decoder model (every part list x every "
+              "fragmentation of the payloads into Data events decodes to the intended parts) and the urlencoded inverse law "
+              "over representative code points; TLC-generated cases are replayed on the real encoder/decoder, and seeded "
+              "cases over the documented Unicode/byte domain are pushed through MultipartEncoder->MultipartDecoder, "
+              "encode_multipart->MultiPartParser and EnvironBuilder->Request.form/files/args; intended vs parsed values are "
+              "judged by the TLC trace spec, which also decides domain membership and reports encoder / urlencoding drift."),
+        note=("Trusted: TLC, trace encoding, the generators in harness/props/c02.py. mimetypes.guess_type is outside (content "
+              "types explicit). Exhaustive only within the model bounds; the Unicode domain is sampled (seeded)."),
+        technique="TLA+ model checking (TLC) of encoder+decoder composition + trace validation of three real encode->parse paths",
+        design_ref="6/C02",
+    ),
     # --- END CHECKS (new entries go above this line) ---
 }
 
 
 # properties not (yet) claimed, with the reason (kept current; see DESIGN.md section 8)
 NOT_APPLICABLE = {
-    "C02": "check not built yet in this round (specification planned in DESIGN.md section 6/C02); nothing is claimed until it is",
     "C03": "check not built yet in this round (specification planned in DESIGN.md section 6/C03); nothing is claimed until it is",
     "C04": "check not built yet in this round (specification planned in DESIGN.md section 6/C04); nothing is claimed until it is",
     "C05": "check not built yet in this round (specification planned in DESIGN.md section 6/C05); nothing is claimed until it is",
